@@ -454,7 +454,7 @@ pub fn run_c05(tier: Tier) -> i32 {
         let t = crate::table();
         let nup: u32 = tier.pick(2_400, 40_000);
         let s = ctx.shards("upload", 16, |_i, seed, st| {
-            let strat = upload_case_strategy(8 << 10);
+            let strat = upload_case_strategy(20 << 10);
             ctx.proptest(seed, nup / 16, &strat, st, |c, st| {
                 let present = present_of(&c.files);
                 let ids: std::collections::BTreeSet<u8> = present.iter().map(|p| p.0).collect();
